@@ -118,6 +118,30 @@ const BIG = 0x100000000;
 '''
 
 
+# A file in which the names the rule breakers misuse are harmless: compiled first in the same run, it must not make
+# prophyc any more lenient towards the file that follows.
+WARMUP = '''enum E { E_A = 1, E_B = 2 };
+struct F { u8 p; u16 q; };
+struct D { u16 h; u8 d[2]; };
+struct G { u16 h; u8 g[2]; };
+struct DD { D d; u8 t; };
+struct GG { u8 t; G g; };
+typedef D TD;
+typedef TD TTD;
+typedef G TG;
+union UF { 1: u8 a; 2: F f; };
+typedef u16 TS;
+typedef TS TTS;
+const ZERO = 1;
+const NEG = 3;
+const BIG = 16;
+struct Y { TS n; u8 a<@n>; TTS m; u16 b<@m>; };
+struct W { D a[2]; G b<2>; TD* o; TG c<>; TTD e<ZERO>; u8 z[NEG]; };
+union WU { 1: D a; 2: TG b; BIG: u8 c; };
+struct X { u8 n; u8 a<@n>; };
+'''
+
+
 def breakers():
     """(rule, variant, text of the definitions that break the rule).  PRE is prepended to all."""
     out = []
@@ -213,6 +237,20 @@ def judge_negative(job):
                 if not accepted:
                     msg = status['prophyc']
                     if msg.startswith('ProphycError'):
+                        # the same file as the second input of a run whose first input uses the same names harmlessly
+                        d2 = T.fresh_dir('c12w')
+                        try:
+                            warm = os.path.join(d2, 'warm.prophy')
+                            with open(warm, 'w') as f:
+                                f.write(WARMUP)
+                            r2 = T.compile_text(full, outs=('python',), workdir=d2, extra=(warm,))
+                            out['cases'] += 1
+                            if r2.ok:
+                                out['viol'].append(('accepted-rule-breaker-after-harmless-file|%s|%s' % (rule, variant.split('@')[0]),
+                                                    {'rule': rule, 'variant': variant, 'schema': full, 'warmup': WARMUP,
+                                                     'detail': 'rejected alone, accepted as "prophyc warm.prophy m.prophy"'}))
+                        finally:
+                            shutil.rmtree(d2, ignore_errors=True)
                         out['outcomes']['rejected-with-diagnostic'] = out['outcomes'].get('rejected-with-diagnostic', 0) + 1
                         if len(out['samples']) < 2:
                             out['samples'].append({'rule': rule, 'variant': variant, 'schema': text, 'diagnostic': msg[:160]})
@@ -285,6 +323,18 @@ def run(ctx):
 
 
 def replay(art):
+    if 'warmup' in art:
+        d2 = T.fresh_dir('c12w')
+        try:
+            warm = os.path.join(d2, 'warm.prophy')
+            with open(warm, 'w') as f:
+                f.write(art['warmup'])
+            r2 = T.compile_text(art['schema'], outs=('python',), workdir=d2, extra=(warm,))
+            if r2.ok:
+                return 'prophyc warm.prophy m.prophy accepts m.prophy:\n%s\nafter warm.prophy:\n%s' % (art['schema'], art['warmup'])
+            return None
+        finally:
+            shutil.rmtree(d2, ignore_errors=True)
     if 'rule' in art:
         accepted, status, res = realise(art['schema'])
         if res.outdir:
